@@ -242,10 +242,10 @@ namespace Givaro {
     (Integer& a, Integer& b, const Integer& x, const Integer& m,
      const Integer& a_bound, const Integer& b_bound) {
         Integer bound = x/b_bound;
-        ratrecon(a,b,x,m,
-                 (bound>a_bound?bound:a_bound),
-                 true, false);
-        return b <= b_bound;
+        bool res = ratrecon(a,b,x,m,
+                            (bound>a_bound?bound:a_bound),
+                            true, false);
+        return res && (b <= b_bound);
     }
 
 
